@@ -64,9 +64,13 @@ func (stream *receiverStream) processRTP(now time.Time, pktHeader *rtp.Header) {
 		stream.lastRTPTimeRTP = pktHeader.Timestamp
 		stream.lastRTPTimeTime = now
 	} else { // following frames
-		stream.setReceived(pktHeader.SequenceNumber)
-
 		diff := pktHeader.SequenceNumber - stream.lastSeqnum
+		// a packet older than the history must not mark the slot it shares with a newer sequence number
+		if behind := stream.lastSeqnum - pktHeader.SequenceNumber; diff < (1<<15) ||
+			behind < stream.size*packetsPerHistoryEntry {
+			stream.setReceived(pktHeader.SequenceNumber)
+		}
+
 		if diff > 0 && diff < (1<<15) {
 			// wrap around
 			if pktHeader.SequenceNumber < stream.lastSeqnum {
